@@ -206,7 +206,7 @@ def run_impl(p):
                 it = [[np.atleast_1d(np.asarray(getattr(e, n))).tolist() for n in names] for e in list(r)]
                 again = _table(r[:], names)
                 if it != _entries(r, names) or again != o or not bool(r == r[:]) or _entries(obj, names) != _entries(_obj(p["cols"]), names):
-                    raise AssertionError("a selected table does not behave like a table holding its entries")
+                    raise engine.Inconsistent("a selected table does not behave like a table holding its entries")
             # the fields of the selection keep their element type and width, also when nothing is selected
             o["field_types"] = canon([[str(np.asarray(getattr(r, n)).dtype), [int(x) for x in np.asarray(getattr(r, n)).shape[1:]]] for n in names])
             return o
@@ -216,7 +216,7 @@ def run_impl(p):
             kept = [[np.atleast_1d(np.asarray(getattr(r, n))).tolist() for n in names] for r in es]
             as_we_go = [[np.atleast_1d(np.asarray(getattr(r, n))).tolist() for n in names] for r in obj]
             if kept != as_we_go:
-                raise AssertionError("entries kept from an iteration differ from the entries seen while iterating")
+                raise engine.Inconsistent("entries kept from an iteration differ from the entries seen while iterating")
             return kept
         if f == "eq" and p.get("eqmode") in ("close_big", "close_tiny", "float_same") and len(obj) >= 1:
             # float fields whose tables differ in ONE cell by less than any sensible tolerance (1 in 1e8, or 4e-9 against 8e-9), and
